@@ -17,4 +17,9 @@ def boundsDefect (xs : List Rat) (q : Rat) : Rat × Rat × Rat :=
   let t : Rat := ((q / 2).floor : Int)
   (percentile xs t, percentile xs 50, percentile xs (100 - t))
 
+/-- the evaluation targets whose interval matrices one `propagate` call returns, in the order of
+the result list: the member function tests the targets one after the other in the fixed order
+`order` and appends the result of each requested one; the intervals are split off by position -/
+def targetsOut (order req : List String) : List String := order.filter (fun t => req.contains t)
+
 end Skg
